@@ -464,6 +464,16 @@ class Interp:
                 raise Undecided("malloc of a non-struct at %s" % n.loc)
             if f in IGNORED_CALLS:
                 return 0
+            if f in ("log", "logf", "exp", "expf", "sqrt", "sqrtf", "fabs", "fabsf") and len(n.args) == 1:
+                import math
+                x_ = self.expr(n.args[0], env)
+                if x_ is UNDEF or not isinstance(x_, (int, float)):
+                    raise Undecided("%s of a non-constant at %s" % (f, n.loc))
+                try:
+                    return {"log": math.log, "logf": math.log, "exp": math.exp, "expf": math.exp, "sqrt": math.sqrt, "sqrtf": math.sqrt,
+                            "fabs": abs, "fabsf": abs}[f](x_)
+                except ValueError:
+                    raise Undecided("%s(%r) at %s" % (f, x_, n.loc))
             if f in ("strlen", "strnlen") and n.args:
                 p_ = self.expr(n.args[0], env)
                 if isinstance(p_, Ptr) and isinstance(p_.arr, list):
